@@ -120,6 +120,10 @@ func (cn *canoner) path(v ssa.Value, d int) string {
 		if sv := singleStore(x); sv != nil {
 			return cn.c(sv, d+1)
 		}
+		// a by-value parameter (or value receiver) spilled to the stack: name it after the parameter
+		if pv := spilledParam(x); pv != nil {
+			return cn.c(pv, d+1)
+		}
 		return cn.c(x, d+1)
 	}
 	return cn.c(v, d+1)
@@ -177,6 +181,29 @@ func singleStore(a *ssa.Alloc) ssa.Value {
 		}
 	}
 	if n == 1 {
+		return val
+	}
+	return nil
+}
+
+// spilledParam: the alloc holds a copy of a parameter (exactly one whole-value
+// store, of a Parameter, in the entry block).
+func spilledParam(a *ssa.Alloc) ssa.Value {
+	var val ssa.Value
+	n := 0
+	for _, r := range *a.Referrers() {
+		if st, ok := r.(*ssa.Store); ok && st.Addr == a {
+			n++
+			val = st.Val
+			if st.Block().Index != 0 {
+				return nil
+			}
+		}
+	}
+	if n != 1 {
+		return nil
+	}
+	if _, ok := val.(*ssa.Parameter); ok {
 		return val
 	}
 	return nil
